@@ -166,6 +166,9 @@ fn c05() {
             jobs.push(Job { harness: "c05_forget", cfg: json!({"main_n": main_n, "prod_n": prod_n, "boxed": boxed, "pb": pb}) });
         }
     }
+    for boxed in [false, true] {
+        jobs.push(Job { harness: "c05_forget", cfg: json!({"main_n": 1, "prod_n": 1, "boxed": boxed, "concurrent_drop": true, "pb": pb}) });
+    }
     finish(rep, jobs, "Histories of append / clone / drop-clone / flush / drop-handle / shut_down / forget on typed and boxed queues with a producer thread racing the shutdown, all schedules within the preemption bound: at the return of drop(handle) the stream log holds every entry appended before the drop began, then a flush, then the stream's Drop, and nothing is written afterwards; on the forget path the stream is drained, flushed and dropped and the writer thread exits within 3 fake flush intervals after the last handle is gone.");
 }
 
